@@ -219,6 +219,8 @@ pub fn run(e: &Engine) {
         (gen::enum_values(0, &gen::subset(&gen::u3(), 0b101_1011_0110_1101)), true),
         ((0u8..40).map(|b| (vec![b'k', b * 3], b as u64 * 1000)).collect(), false), // fan-out 40: index table write
         (vec![], true),
+        // 256-way node whose transitions all carry 8-byte outputs: single writes of 8 bytes x 256 + index
+        ((0u16..256).map(|b| (vec![b'w', b as u8], crate::engine::mix(b as u64, 0xfa7))).collect(), false),
     ];
     let mut items: Vec<Case> = vec![];
     for (pairs, set) in &smalls {
@@ -244,6 +246,16 @@ pub fn run(e: &Engine) {
         |c| c.to_json(),
         check,
     );
+    // files beyond 64 KiB through short-writing sinks (byte counter / address arithmetic far from the start)
+    let mediums: Vec<Case> = (0..e.tier.pick(4u64, 20)).map(|i| {
+        let r = gen::Recipe { kind: 1, n: 12_000 + 3_000 * i, seed: crate::engine::mix(e.seed, 700 + i), fanout: 5, keylen: 12, values: (i % 3) as u8 };
+        let script: Vec<Act> = (0..400).map(|j| match crate::engine::mix(e.seed ^ i, j) % 5 { 0 => Act::Interrupted, 1 => Act::AllButOne, 2 => Act::Accept(1), _ => Act::Accept(usize::MAX) }).collect();
+        Case { pairs: r.pairs(), set: r.values == 0, sink: if i % 2 == 0 { SinkSpec::Script { script, then_cap: 1 + (i as usize % 7) * 37 } } else { SinkSpec::Buffered { capacity: 7, script, then_cap: 3 + i as usize } } }
+    }).collect();
+    e.run_list("files-over-64KiB-through-short-writing-sinks", &mediums, |c| json!({"n_keys": c.pairs.len(), "sink": c.to_json()["sink"]}), |c, rec| {
+        rec.class("file_over_64KiB_through_scripted_sink");
+        check(c, rec)
+    });
     for cls in ["short_write_or_interrupt_in_nodes_or_footer", "sink:bufwriter", "sink:cursor", "sink:prefilled_vec", "sink:&mut_vec"] {
         e.require_class(cls, 1);
     }
